@@ -186,7 +186,12 @@ class Builder:
         proj = {"base": entries(world.tree_proj(repo.revision_tree(rb))),
                 "this": entries(world.tree_proj(this.branch.repository.revision_tree(rt))),
                 "other": entries(world.tree_proj(repo.revision_tree(ro)))}
-        return tp, op, other.branch, (rb if shape == "plain" else None), ro, proj
+        # the working tree the merges run in: a fresh checkout of THIS (the builder's own tree is not reused: committing
+        # a kind change leaves a git index without the path)
+        cp = self.fresh("clean")
+        this.controldir.sprout(cp, revision_id=rt).open_workingtree()
+        shutil.rmtree(tp, ignore_errors=True)
+        return cp, op, other.branch, (rb if shape == "plain" else None), ro, proj
 
 
 def merge_types():
@@ -195,7 +200,9 @@ def merge_types():
 
 
 def _replay(sub, jobs):
+    import logging
     from breezy import merge as M
+    logging.getLogger("brz").setLevel(logging.CRITICAL)      # "criss-cross merge encountered", "Text conflict in ..."
     from vf import world
     bld = Builder(sub.workdir)
     rows = sub.cov.setdefault("_collect", [])
